@@ -202,6 +202,14 @@ def judge(cats, loads, res, deps):
                 'predicate': 'requesting valid columns never fails because of which other columns were or were not requested',
                 'size': request_len(ld)})
             continue
+        if r.get('fields_mutated'):
+            out.append({
+                'key': 'fields-list:mutated',
+                'what': 'the loader changed the list object passed as `fields` (later loads given the same object lose or gain columns)',
+                'input': {'catalog': cats[ld['cat']], 'loads': [ld]}, 'impl_result': {k: r.get(k) for k in ('fields_mutated', 'missing_requested')},
+                'expected': 'the caller\'s list unchanged; every requested column returned',
+                'predicate': 'requesting valid columns never fails / drops columns because of what else was requested (before)',
+                'size': request_len(ld)})
         groups.setdefault((ld['cat'], ld['cleaned'], ld['units']), []).append(i)
     for key, idx in groups.items():
         idx.sort(key=lambda i: request_len(loads[i]))
